@@ -13,7 +13,7 @@ observation  `<out>#<core>#<cmdline>#<intro>`
   out      `ok` | `ok;top:n=v,…` (the get_option values of a (re)configuration, sorted) | `fail`
   core     `-` | `eff:k=v,…;own:k=v,…;aug:k=v,…;yield:k,…`      (sorted; keys `top:n` / `sub:n`)
   cmdline  `-` | `k=v,…` in file order
-  intro    `-` | `k=v,…` sorted
+  intro    `-` | `k=v,…` sorted (rows of mintro._list_buildoptions: effective values, augments as rows)
 Values are printed as plain text (the harness only uses [A-Za-z0-9_] in names and values).
 -/
 namespace Driver.Life
@@ -66,11 +66,25 @@ def showCore (c : Core) : String :=
   ";aug:" ++ join (s.augments.map (fun p => showK p.1 ++ "=" ++ showV p.2)) ++
   ";yield:" ++ join (pk.filterMap (fun k => (alookup k s.options).bind (fun id => s.heap[id]?.bind (fun o => if o.yielding then some (showK k) else none))))
 
+/-- `mintro._list_buildoptions`: the value a row shows — the parent's value for an inheriting option with a parent,
+else the own value; an augment under the same key wins -/
+def introVal (s : Store) (k : Key) (o : Obj) : Val :=
+  let v := if o.yielding then
+      (match o.parent with
+       | some pid => (s.heap[pid]?.map (·.value)).getD o.value
+       | none => o.value)
+    else o.value
+  (alookup k s.augments).getD v
+
 def showIntro (s : Store) : String :=
   let pk := (s.options.map (·.1)).filter s.isProjectOption
   let wl : Key := { name := sWarningLevel, sub := none, machine := .host }
-  join ((pk ++ [wl]).filterMap (fun k => (alookup k s.options).bind (fun id => s.heap[id]?.map (fun o =>
-    (if k.sub.isNone then "top:" ++ txt k.name else showK k) ++ "=" ++ showV o.value))))
+  let rows := (pk ++ [wl]).filterMap (fun k => (alookup k s.options).bind (fun id => s.heap[id]?.map (fun o =>
+    (if k.sub.isNone then "top:" ++ txt k.name else showK k) ++ "=" ++ showV (introVal s k o))))
+  -- per-subproject overrides of global options are listed as rows of their own
+  let augRows := s.augments.filterMap (fun p =>
+    if (alookup p.1.global s.options).isSome && !(ahas p.1 s.options) then some (showK p.1 ++ "=" ++ showV p.2) else none)
+  join (rows ++ augRows)
 
 def showOut : MesonModel.Life.Out → String
   | .ok [] => "ok"
